@@ -3,7 +3,7 @@
    Events (one JSON object per line):
      world  nset sink                       a fresh chain: the shared native state before the first block
      tx     id tree used fund obs           one scenario transaction, in block order; obs is what the chain shows
-                                            after the block: halt, notes, store, bal, xferlog
+                                            after the block: halt, notes, store, bal, xferlog, delivered, dep
      block  nset nset_disk sink payer_delta fees      after the block: shared state read back
    The shared state (native setting, sink balance) is threaded through the transactions of a block in order, so
    the position of a transaction in its block matters.  A transaction whose tree is a corner (Exec.tla) is not
@@ -16,11 +16,11 @@ vars == <<l, G, tainted>>
 
 E == INSTANCE Exec
 
-Init == l = 1 /\ G = [nset |-> 0, sink |-> 0] /\ tainted = FALSE
+Init == l = 1 /\ G = [nset |-> 0, sink |-> 0, ndep |-> 0] /\ tainted = FALSE
 
 Start(e) == [st |-> E!EmptyStore,
              bal |-> [c \in E!Contracts |-> IF e.used[c + 1] THEN e.fund ELSE 0],
-             sink |-> G.sink, nset |-> G.nset, notes |-> <<>>, pend |-> FALSE, corner |-> FALSE]
+             sink |-> G.sink, nset |-> G.nset, dep |-> {}, ndep |-> G.ndep, notes |-> <<>>, pend |-> FALSE, corner |-> FALSE]
 
 IsTransfer(n) == n[1] = "gas"
 NTransfers(notes) == Cardinality({i \in DOMAIN notes : IsTransfer(notes[i])})
@@ -33,26 +33,28 @@ TxChecks(e, x) ==
     \cup NameIf(\A c \in E!Contracts : e.used[c + 1] => o.bal[c + 1] = x.S.bal[c], "Balances")
     \cup NameIf(o.xferlog = (IF x.halt THEN NTransfers(x.S.notes) ELSE 0), "TransferLog")
     \cup NameIf(o.delivered = (IF x.halt THEN x.S.notes ELSE <<>>), "Delivered")
+    \cup NameIf(ToSet(o.dep) = x.S.dep, "Deployments")
 
 Step ==
     /\ l <= Len(TLog)
     /\ l' = l + 1
     /\ LET e == TLog[l] IN
        CASE e.event = "world" ->
-              /\ G' = [nset |-> e.nset, sink |-> e.sink] /\ tainted' = FALSE
+              /\ G' = [nset |-> e.nset, sink |-> e.sink, ndep |-> 0] /\ tainted' = FALSE
          [] e.event = "tx" ->
               LET x == E!TxEffect(e.tree, Start(e)) IN
               /\ tainted' = (tainted \/ x.corner)
-              /\ G' = [nset |-> x.S.nset, sink |-> x.S.sink]
+              /\ G' = [nset |-> x.S.nset, sink |-> x.S.sink, ndep |-> x.S.ndep]
               /\ IF x.corner THEN Report(l, {"Corner"}, [id |-> e.id])
                  ELSE \/ tainted
                       \/ Report(l, TxChecks(e, x),
                                 [id |-> e.id, expected |-> [halt |-> x.halt, notes |-> x.S.notes, st |-> x.S.st, bal |-> x.S.bal]])
          [] e.event = "block" ->
-              /\ G' = [nset |-> e.nset, sink |-> e.sink] /\ tainted' = FALSE
+              /\ G' = [nset |-> e.nset, sink |-> e.sink, ndep |-> 0] /\ tainted' = FALSE
               /\ \/ tainted
                  \/ Report(l, NameIf(e.nset = G.nset /\ e.nset_disk = G.nset, "NativeSetting")
                               \cup NameIf(e.sink = G.sink, "SinkBalance")
+                              \cup NameIf(e.nextid_delta = G.ndep, "Deployments")
                               \cup NameIf(e.payer_delta = 0 - e.fees, "FeeOnly"),
                            [expected |-> G])
 
